@@ -366,6 +366,7 @@ def run():
     CR.neg_correspondence(ck)
     CR.closure_correspondence(ck, uinfo)
     CR.parse_retry_times(ck)
+    CR.fmt_layout_correspondence(ck)
 
     # 2. probe streams
     progs = S.all_programs()
